@@ -695,6 +695,134 @@ async fn credit_squeeze(args: &Args, rep: &mut Report) {
     }
 }
 
+/// Vectored writes (tokio `AsyncWriteExt::write_vectored`) that run into flow control exactly at a
+/// slice boundary: the receiver accepts the stream but starts reading late, the first slice is
+/// sized to fill the stream window exactly (calibrated), one byte less, one byte more, or half of
+/// it. Whatever count each call reports, the receiver must get the slices' bytes once, in order.
+async fn vectored_backpressure(args: &Args, rep: &mut Report) {
+    use std::io::IoSlice;
+    use tokio::io::AsyncWriteExt;
+    let pair = match ends::pair(PairOpts { server_transport: Some(small_window_transport()), client_transport: Some(small_window_transport()), relay: false }).await {
+        Ok(p) => p,
+        Err(e) => return rep.inconclusive(format!("vectored: {e}")),
+    };
+    for bidi in [false, true] {
+        // calibration: application bytes a fresh stream takes while the receiver does not read
+        let cap = {
+            let (mut s, _keep): (SendStream, Box<dyn std::any::Any + Send>) = if bidi {
+                match within(Duration::from_secs(3), async { pair.cconn.open_bi().await.ok()?.await.ok() }).await {
+                    Waited::Done(Some((s, r))) => (s, Box::new(r)),
+                    _ => return rep.inconclusive("vectored: open"),
+                }
+            } else {
+                match within(Duration::from_secs(3), async { pair.cconn.open_uni().await.ok()?.await.ok() }).await {
+                    Waited::Done(Some(s)) => (s, Box::new(())),
+                    _ => return rep.inconclusive("vectored: open"),
+                }
+            };
+            let _ = s.write_all(b"c").await;
+            let held: Box<dyn std::any::Any + Send> = if bidi {
+                match within(Duration::from_secs(3), pair.sconn.accept_bi()).await {
+                    Waited::Done(Ok(x)) => Box::new(x),
+                    _ => return rep.inconclusive("vectored: accept"),
+                }
+            } else {
+                match within(Duration::from_secs(3), pair.sconn.accept_uni()).await {
+                    Waited::Done(Ok(x)) => Box::new(x),
+                    _ => return rep.inconclusive("vectored: accept"),
+                }
+            };
+            let mut total = 1usize;
+            let chunk = [0x33u8; 512];
+            loop {
+                match within(ms(250), s.write(&chunk)).await {
+                    Waited::Done(Ok(n)) => total += n,
+                    Waited::Done(Err(e)) => return rep.inconclusive(format!("vectored calibration: {e}")),
+                    Waited::TimedOut => break,
+                }
+            }
+            let _ = s.reset(wtransport::VarInt::from_u32(0));
+            drop(held);
+            total
+        };
+        rep.max("max_vectored_calibrated_stream_capacity", cap as u64);
+        if cap < W / 2 || cap > W {
+            rep.inconclusive(format!("vectored: calibration gave {cap} bytes for a {W}-byte stream window"));
+            continue;
+        }
+        let heads: Vec<usize> = if args.thorough { vec![cap, cap - 1, cap + 1, cap / 2, cap - 2, 1] } else { vec![cap, cap - 1, cap + 1, cap / 2] };
+        for (hi, head_len) in heads.into_iter().enumerate() {
+            for shape in 0..2u8 {
+                let cls = format!("vectored|{}|head={}|shape={shape}", if bidi { "bi" } else { "uni" }, match head_len as i64 - cap as i64 { 0 => "window".to_string(), -1 => "window-1".into(), -2 => "window-2".into(), 1 => "window+1".into(), _ => if head_len == 1 { "1".into() } else { "half".into() } });
+                rep.eval(cls.clone());
+                let tag = 0x7EC0_0000u64 + (hi as u64) * 4 + shape as u64 + if bidi { 100 } else { 0 };
+                let head = payload(tag, head_len.max(12));
+                let head = head[..head_len].to_vec();
+                let tail = payload(tag + 1, 5000);
+                let want: Vec<u8> = [&head[..], &tail[..]].concat();
+                let recv_side = async {
+                    let mut r = if bidi {
+                        pair.sconn.accept_bi().await.map_err(|e| e.to_string())?.1
+                    } else {
+                        pair.sconn.accept_uni().await.map_err(|e| e.to_string())?
+                    };
+                    // start reading late: the sender has run into flow control by then
+                    tokio::time::sleep(ms(350)).await;
+                    recv_all(&mut r, RStyle::Read, 8192, None).await
+                };
+                let send_side = async {
+                    let mut s = if bidi {
+                        pair.cconn.open_bi().await.map_err(|e| e.to_string())?.await.map_err(|e| e.to_string())?.0
+                    } else {
+                        pair.cconn.open_uni().await.map_err(|e| e.to_string())?.await.map_err(|e| e.to_string())?
+                    };
+                    let empty: [u8; 0] = [];
+                    let mut bufs: Vec<&[u8]> = if shape == 0 { vec![&head, &tail] } else { vec![&empty, &head, &empty, &tail[..100], &tail[100..]] };
+                    let mut calls = 0u32;
+                    while !bufs.is_empty() {
+                        let ios: Vec<IoSlice> = bufs.iter().map(|b| IoSlice::new(b)).collect();
+                        let mut n = s.write_vectored(&ios).await.map_err(|e| e.to_string())?;
+                        calls += 1;
+                        if n == 0 && bufs.iter().all(|b| b.is_empty()) {
+                            break;
+                        }
+                        while !bufs.is_empty() && (n > 0 || bufs[0].is_empty()) {
+                            if n >= bufs[0].len() {
+                                n -= bufs[0].len();
+                                bufs.remove(0);
+                            } else {
+                                bufs[0] = &bufs[0][n..];
+                                n = 0;
+                            }
+                        }
+                        if calls > 100_000 {
+                            return Err("write_vectored made no progress in 100000 calls".to_string());
+                        }
+                    }
+                    s.finish().await.map_err(|e| format!("finish: {e}"))?;
+                    Ok::<u32, String>(calls)
+                };
+                let (rx, tx) = tokio::join!(within(Duration::from_secs(15), recv_side), within(Duration::from_secs(15), send_side));
+                match (rx, tx) {
+                    (Waited::Done(Ok(got)), Waited::Done(Ok(calls))) => {
+                        rep.count("vectored_write_calls", calls as u64);
+                        if got != want {
+                            let at = first_diff(&got, &want);
+                            rep.violation(
+                                format!("C01|vectored|{}|{}", if bidi { "bi" } else { "uni" }, if got.len() > want.len() { "extra-bytes" } else if got.len() < want.len() { "missing-bytes" } else { "altered" }),
+                                format!("write_vectored of [{} bytes, 5000 bytes] on a stream whose window holds {cap}: receiver got {} bytes, expected {}; first difference at {at:?}", head.len(), got.len(), want.len()),
+                                J::obj([("case", J::s(cls.clone())), ("window_capacity", J::u(cap as u64)), ("head_len", J::u(head.len() as u64)), ("received_len", J::u(got.len() as u64))]),
+                            );
+                        }
+                    }
+                    (a, b) => rep.inconclusive(format!("{cls}: receiver {:?} sender {:?}", matches!(a, Waited::Done(Ok(_))), b.done().map(|r| r.err()))),
+                }
+            }
+        }
+    }
+    pair.cconn.close(wtransport::VarInt::from_u32(0), b"");
+}
+
 pub fn run(args: &Args) -> Report {
     let mut rep = Report::new();
     let groups: Vec<(bool, bool, bool)> = if args.thorough { vec![(true, false, false), (false, false, false), (true, true, false), (false, true, false), (true, false, true), (false, false, true)] } else { vec![(true, false, false), (false, false, false), (true, true, false), (true, false, true)] };
@@ -706,6 +834,7 @@ pub fn run(args: &Args) -> Report {
     let rt = crate::runtime(true, 4);
     rt.block_on(raw_segmentation(args, &mut rep));
     rt.block_on(credit_squeeze(args, &mut rep));
+    rt.block_on(vectored_backpressure(args, &mut rep));
     rt.shutdown_timeout(Duration::from_millis(200));
     let _ = util::tick();
     rep
